@@ -721,6 +721,13 @@ def lockorder_family(ctx):
     """Real-time lock-order episodes (a slowed-down handler under the association lock vs. an expiring timer):
     the only verdict is a certified lock cycle (C09_Deadlock, claimed by every check)."""
     binp = ctx.harness()
+    # design level: the lock hierarchy between association lock and timer mutex (and its negative control)
+    ctx.tlc_design("TimerLock", "TimerLock_ok.cfg", workers=2, timeout=300)
+    neg = L.run_tlc(ctx.scr, "TimerLock", "TimerLock_neg.cfg", workers=1, timeout=300)
+    if "NoDeadlock" not in neg["invariant_violated"]:
+        raise L.MachineryError("negative control failed: TimerLock with the mutex held in the callback must deadlock\n" + neg["out"][-1500:])
+    ctx.design.append({"module": "TimerLock", "cfg": "TimerLock_neg.cfg (negative control: deadlock expected and found)", "distinct": neg["distinct"],
+                       "generated": neg["generated"], "wall_s": neg["wall_s"], "ok": True, "cmd": neg["cmd"]})
     out = ctx.scr.mkdir("lockorder")
     n = 2 if ctx.quick else 6
     ps = L.run_shards(binp, "lockorder-rt", out, n, {})
